@@ -42,6 +42,9 @@ ActsOf(X, Y, r) ==
   \cup {[op |-> "del", k |-> q] : q \in UserKeys(X) \ UserKeys(Y)}
   \cup {[op |-> "reg", k |-> q, v |-> Y.store[q].v] : q \in {x \in RegKeysOf(Y) : x \notin RegKeysOf(X) \/ X.store[x].v # Y.store[x].v}}
   \cup {[op |-> "unreg", k |-> q] : q \in Withdrawn(X, Y, r)}
+  \* the end of a session removes whatever the table holds for its client (also a registration whose key
+  \* had been deleted from the store before)
+  \cup (IF r.op = "disconnect" /\ Y.clients # X.clients THEN {[op |-> "unregclient", c |-> r.c]} ELSE {})
 
 \* table state: [tbl: key -> entry, regs: reg key -> token]
 EmptyT == [tbl |-> <<>>, regs |-> <<>>]
@@ -50,6 +53,7 @@ ApplyT(t, a) ==
     [] a.op = "del"   -> [t EXCEPT !.tbl = RestrictF(@, DOMAIN @ \ {a.k})]
     [] a.op = "reg"   -> [t EXCEPT !.regs = (a.k :> a.v) @@ @]
     [] a.op = "unreg" -> [t EXCEPT !.regs = RestrictF(@, DOMAIN @ \ {a.k})]
+    [] a.op = "unregclient" -> [t EXCEPT !.regs = RestrictF(@, {q \in DOMAIN @ : q[3] # a.c})]
 ApplySet(t, as) == FoldS(ApplyT, t, as)          \* actions of one request touch distinct keys: they commute
 RECURSIVE ApplyGroups(_, _, _)
 ApplyGroups(t, gs, n) == IF n = 0 THEN t ELSE ApplyGroups(ApplySet(t, Head(gs)), Tail(gs), n - 1)
